@@ -24,6 +24,7 @@ ASIS = [
     ("WorkersFault", "MC_wf_pp_asis_abort.cfg", "AbortBound", "as pinned: ProcessParallel abort never cancels the group (ReadAll maps io.EOF to nil)"),
     ("WorkersFault", "MC_wf_map_asis_abort.cfg", "AbortBound", "as pinned: Map abort never cancels the group"),
     ("WorkersFault", "MC_wf_gen_asis_abort.cfg", "AbortBound", "as pinned: GenerateParallel abort never cancels the group"),
+    ("WorkersFault", "MC_wf_gen_asis_paniceof.cfg", "AbortBound", "as committed in 4f757ff: GenerateParallel does not cancel when the aborting failure is a panic whose value is / wraps io.EOF"),
     ("WorkersFault", "MC_wf_gen_asis_noctxcheck.cfg", "AbortBound", "cancelling alone does not stop GenerateParallel: the generator is called without a context check"),
 ]
 MUTS = [
@@ -32,6 +33,11 @@ MUTS = [
     ("ErrContractMC", "EC_mut_ctxdefault.cfg", "Refines", "context errors reported by default"),
     ("ErrContractMC", "EC_mut_nopanicjoin.cfg", "Refines", "panic recovered without joining ErrRecoveredPanic"),
     ("ErrContractMC", "EC_mut_skipreported.cfg", "Refines", "ErrIteratorSkip reported"),
+    ("ErrContractMC", "EC_mut_sentinelfirst.cfg", "Refines", "ErrIteratorSkip / io.EOF cases before the panic cases: a panic whose value is / wraps them is swallowed"),
+    ("ErrContractMC", "EC_mut_ctxfirst.cfg", "Refines", "... and the context case too"),
+    ("WorkersFault", "MC_wf_mut_sentinelfirst_eof.cfg", "NothingSwallowed", "panic(io.EOF) classified as end of input"),
+    ("WorkersFault", "MC_wf_mut_sentinelfirst_skip.cfg", "AbortedWorkerStops", "panic(ErrIteratorSkip) classified as skip: abort mode keeps going"),
+    ("WorkersFault", "MC_wf_mut_ctxfirst.cfg", "NothingSwallowed", "panic(context error) classified as a context error"),
     ("WorkersFault", "MC_wf_mut_resolver.cfg", "NothingSwallowed", "resolver wired to a different collector"),
     ("WorkersFault", "MC_wf_mut_swap.cfg", "AbortedWorkerStops", "continue / abort swapped"),
     ("WorkersFault", "MC_wf_mut_nohandler.cfg", "NothingSwallowed", "panic branch without o.ErrorHandler(err)"),
@@ -58,7 +64,9 @@ ASSUMPTIONS = [
     "interleavings between two driver steps are sampled by the Go scheduler, not enumerated",
     "sources are finite slices; user functions ignore the context and return / panic when released; a context error "
     "'returned by the user function' is context.Canceled returned while the group's context is live",
-    "panic values covered: an error, a string, a struct; panic([]error{...}) (ers.ParsePanic joins the errors WITHOUT "
+    "panic values covered: an error, a string, a struct, and values that are / wrap io.EOF, ErrIteratorSkip, "
+    "context.Canceled, the excluded sentinel, ErrCurrentOpAbort (these panics must be reported with ErrRecoveredPanic; "
+    "whether errors.Is then also finds the wrapped never-reported sentinel is not judged); panic([]error{...}) (ers.ParsePanic joins the errors WITHOUT "
     "ErrRecoveredPanic) is outside the kinds the property enumerates and is not explored",
 ]
 
@@ -92,7 +100,7 @@ def cells(rep):
     ExcludedErrors) and prints the cells."""
     r = tlc.run_tlc(COMP, "ErrContractMC", "EC_fixed.cfg", workers=1, timeout=300)
     rep.add_tlc("ErrContractMC/EC_fixed.cfg", r, "Classify (transcription of the recover wrappers + CanContinueOnError, with "
-                "ExcludedErrors consulted) refines Contract (property C03) on all 11 kinds x 2^4 options")
+                "ExcludedErrors consulted) refines Contract (property C03) on all 16 kinds x 2^4 options")
     if not r.ok:
         rep.infra_error("ErrContractMC/EC_fixed.cfg failed (%s): %s" % (r.violated, r.out[-1200:]))
         return []
@@ -114,6 +122,25 @@ def sample(behs, n, seed):
     behs = list(behs)
     random.Random(seed).shuffle(behs)
     return behs[:n]
+
+
+def stratified_by(behs, key, per, seed):
+    """`per` behaviours of every class `key(b)` (seeded choice): no class of the enlarged matrix is left to chance"""
+    rnd = random.Random(seed)
+    groups = {}
+    for b in behs:
+        groups.setdefault(key(b), []).append(b)
+    out = []
+    for k in sorted(groups):
+        g = groups[k]
+        rnd.shuffle(g)
+        out += g[:per]
+    return out
+
+
+def fault_class(b):
+    """construct x kinds of the failing items"""
+    return (b["cfg"]["c"], tuple(sorted(f["kind"] for f in b["cfg"]["faults"])))
 
 
 def stratified(behs, per, seed):
